@@ -25,7 +25,7 @@ func (f *file) VerifNewStack(name string, depth int) *StackCounter {
 	return &StackCounter{name: name, depth: depth, file: f}
 }
 
-func (f *file) VerifRotate()           { f.rotate() }
+func (f *file) VerifRotate()            { f.rotate() }
 func (f *file) VerifRotate1() time.Time { return f.rotate1() }
 func (f *file) VerifErr() error         { return f.err }
 func (f *file) VerifMu() *sync.Mutex    { return &f.mu }
